@@ -16,6 +16,21 @@ CLAUSE = {1: 'unticked-compound', 2: 'no-extension-on-branch', 3: 'missing-insta
 FDE_FAMILY = {'FDE', 'KFDE', 'TFDE', 'S4FDE', 'S5FDE'}
 
 
+PER_WORLD = {'NecessityDesignated', 'NecessityNegatedUndesignated', 'PossibilityUndesignated', 'PossibilityNegatedDesignated',
+             'Necessity', 'PossibilityNegated'}
+
+
+def clause_key(logic, c, shape):
+    "Stable key of an unsaturation: the shared call site where one exists, else (logic, clause, shape)."
+    if c == 3 and shape in PER_WORLD:
+        return 'unsaturated:missing-instance:kfde.NecessityDesignated(NodeCount.isleast/MaxWorlds)'
+    if c == 4:
+        return 'unsaturated:frame-rule-unapplied:rules.AccessNodeRule(MaxWorlds silent stop)'
+    if c == 6:
+        return 'unsaturated:serial-successor-missing:rules.access.Serial(_should_apply)'
+    return f'unsaturated:{logic}:{CLAUSE.get(c, str(c))}:{shape}'
+
+
 def gen_jobs(logics, examples, tier, seed):
     rng = random.Random(seed)
     jobs = []
@@ -104,34 +119,26 @@ def run(args) -> int:
                        failing_nodes=failing, countermodel=cm, unsaturated=unsat, lib_node_ok=ob['lib_node_ok'],
                        lib_countermodel=ob['lib_countermodel'])
             lib_fail = [k for k, v in enumerate(ob['lib_node_ok']) if v is not True]
-            clause_keys = sorted({(CLAUSE.get(c, str(c)), ob['shapes'][k] if c not in (4, 6) or k < 0 else 'frame')
-                                  for k, c in unsat if True} if unsat else [])
-            # clause index k refers to a node except for frame clauses (then it is a world)
-            clause_keys = sorted({(CLAUSE.get(c, str(c)), ('frame' if c in (4, 6) else ob['shapes'][k])) for k, c in unsat})
-            bad = bool(failing) or not cm or bool(lib_fail) or ob['lib_countermodel'] is not True
-            if not bad and not unsat:
+            coq_bad = bool(failing) or not cm
+            lib_bad = bool(lib_fail) or ob['lib_countermodel'] is not True
+            keys = sorted({clause_key(n, c, ('frame' if c in (4, 6) else ob['shapes'][k])) for k, c in unsat})
+            if not coq_bad and not lib_bad and not unsat:
                 n_cert += 1
                 continue
-            if not bad and unsat:
-                # saturation clause violated although this particular model is still a countermodel
-                for ck in clause_keys:
-                    chk.violation(f'unsaturated:{n}:{ck[0]}:{ck[1]}',
-                                  f"{n}: a 'completed' open branch leaves a rule instance unapplied ({ck[0]} at a {ck[1]} node); "
-                                  f"argument {r['argstr']}", rep)
-                continue
-            # the model is not a countermodel / does not satisfy the branch
-            if n in FDE_FAMILY and not lib_fail and ob['lib_countermodel'] is True:
-                chk.count('cross_referenced', 'C07 tt:FDE-family (library evaluates with the linear-order tables)')
+            if n in FDE_FAMILY and coq_bad != lib_bad and not unsat:
+                # the library evaluates with the linear-order tables, the documented semantics is the lattice: C07's finding
+                chk.count('cross_referenced', 'C07 tt:FDE-family (N,B)')
                 continue
             if unsat:
-                for ck in clause_keys:
-                    chk.violation(f'unsaturated:{n}:{ck[0]}:{ck[1]}',
-                                  f"{n}: the model of a 'completed' open branch is not a countermodel / does not satisfy the branch; "
-                                  f"the branch is unsaturated ({ck[0]} at a {ck[1]} node); argument {r['argstr']}", rep)
-            else:
-                chk.violation(f'countermodel:{n}:saturated-branch-not-satisfied',
-                              f"{n}: the model read off a saturated open branch does not satisfy nodes {failing or lib_fail} "
-                              f"(countermodel={cm}, library says {ob['lib_countermodel']}); argument {r['argstr']}", rep)
+                for key in keys:
+                    chk.violation(key,
+                                  f"{n}: a 'completed' open branch calls for a rule instance that was never applied ({key}); "
+                                  f"its model {'is not a countermodel / does not satisfy the branch' if (coq_bad or lib_bad) else 'happens to be a countermodel'}; "
+                                  f"argument {r['argstr']}", rep)
+                continue
+            chk.violation(f'countermodel:{n}:saturated-branch-not-satisfied',
+                          f"{n}: the model read off a saturated open branch does not satisfy nodes {failing or lib_fail} "
+                          f"(countermodel: evaluator {cm}, library {ob['lib_countermodel']}); argument {r['argstr']}", rep)
     chk.notes['open_branches_certified'] = n_cert
     chk.notes['open_branches_examined'] = n_branches
     chk.notes['traces_validated_against_impl'] = n_cert
